@@ -63,22 +63,37 @@ type profSelCase struct {
 }
 
 var (
-	profTypes   = []string{"process_cpu", "memory", "mem", "goroutine"}
-	periodTypes = []string{"cpu", "space", "goroutine"}
-	periodUnits = []string{"nanoseconds", "bytes", "count"}
-	sampleTypes = [][2]string{{"cpu", "nanoseconds"}, {"samples", "count"}, {"alloc_space", "bytes"}, {"alloc_objects", "count"}, {"inuse_space", "bytes"}, {"cpu", "count"}}
-	services    = []string{"web", "web-api", "api", "it's"}
-	profTagVoc  = map[string][]string{
-		"env":    {"prod", "pro", "dev"},
-		"region": {"eu", "eu-west", "us"},
-		"pod":    {"a.b", "aXb", `q"q`, `a\b`},
+	// pools: plain values next to values carrying LIKE wildcards ('%', '_'), regex metacharacters
+	// ('.', '+', '|'), the type_id separator ':', '-' vs '_' and case variants; the generator adds
+	// the pattern neighbours (neighbours.go) of whatever the focus series holds.
+	profTypes   = []string{"process_cpu", "memory", "mem", "goroutine", "wall.time", "go%routine", "Block", "process-cpu"}
+	periodTypes = []string{"cpu", "space", "goroutine", "c_pu", "sp.ace", "CPU"}
+	periodUnits = []string{"nanoseconds", "bytes", "count", "nano_seconds", "by%es"}
+	sampleTypes = [][2]string{{"cpu", "nanoseconds"}, {"samples", "count"}, {"alloc_space", "bytes"}, {"alloc_objects", "count"},
+		{"inuse_space", "bytes"}, {"cpu", "count"}, {"inuse%space", "by_tes"}, {"alloc:objects", "count"}, {"in.use", "Bytes"}, {"alloc-space", "bytes"}}
+	services   = []string{"web", "web-api", "api", "it's", "web_api", "Web", "svc%1", "a.b", "web.api"}
+	profTagVoc = map[string][]string{
+		"env":    {"prod", "pro", "dev", "pr_d", "Prod", "p%d"},
+		"region": {"eu", "eu-west", "us", "eu_west", "e%", "EU"},
+		"pod":    {"a.b", "aXb", `q"q`, `a\b`, "a+b", "a|b", "a_b"},
 	}
 	profTagNames   = []string{"env", "region", "pod"}
 	pseudoLabels   = []string{"__name__", "__period_type__", "__period_unit__", "__sample_type__", "__sample_unit__", "__profile_type__", "service_name"}
 	sampleLevelSet = map[string]bool{"__sample_type__": true, "__sample_unit__": true, "__profile_type__": true}
+	typeIDSet      = map[string]bool{"__name__": true, "__period_type__": true, "__period_unit__": true, "__profile_type__": true}
+	// mutable fields of a stored series and the label each one shows up as
+	profFields = []string{"__name__", "__period_type__", "__period_unit__", "__sample_type__", "__sample_unit__", "service_name", "env", "region", "pod"}
 )
 
 func (s *pSeries) typeID() string { return s.Type + ":" + s.PeriodType + ":" + s.PeriodUnit }
+
+// colonInTypeID: type_id is the ':'-joined (type, period type, period unit); the read side takes it
+// apart with splitByChar(':'), so a part that itself contains ':' cannot be told apart. The writer's
+// type names are a fixed set without ':' (golangPprof.go:310); period type/unit are copied from the
+// pprof. Matchers on the labels derived from type_id are don't-care for such a series.
+func (s *pSeries) colonInTypeID() bool {
+	return strings.Contains(s.Type, ":") || strings.Contains(s.PeriodType, ":") || strings.Contains(s.PeriodUnit, ":")
+}
 
 // virtual label sets, one per sample type element
 func (s *pSeries) labelSets() []map[string]string {
@@ -98,26 +113,87 @@ func (s *pSeries) labelSets() []map[string]string {
 	return out
 }
 
+func (s *pSeries) clone() pSeries {
+	c := *s
+	c.Samples = append([][2]string{}, s.Samples...)
+	c.Tags = append([][2]string{}, s.Tags...)
+	return c
+}
+
+// field access by label name (sample-level fields address element 0)
+func (s *pSeries) field(name string) (string, bool) {
+	switch name {
+	case "__name__":
+		return s.Type, true
+	case "__period_type__":
+		return s.PeriodType, true
+	case "__period_unit__":
+		return s.PeriodUnit, true
+	case "__sample_type__":
+		return s.Samples[0][0], true
+	case "__sample_unit__":
+		return s.Samples[0][1], true
+	case "service_name":
+		return s.Service, true
+	}
+	for _, t := range s.Tags {
+		if t[0] == name {
+			return t[1], true
+		}
+	}
+	return "", false
+}
+
+func (s *pSeries) setField(name, v string) {
+	switch name {
+	case "__name__":
+		s.Type = v
+	case "__period_type__":
+		s.PeriodType = v
+	case "__period_unit__":
+		s.PeriodUnit = v
+	case "__sample_type__":
+		s.Samples[0][0] = v
+	case "__sample_unit__":
+		s.Samples[0][1] = v
+	case "service_name":
+		s.Service = v
+	default:
+		for i := range s.Tags {
+			if s.Tags[i][0] == name {
+				s.Tags[i][1] = v
+				return
+			}
+		}
+		s.Tags = append(s.Tags, [2]string{name, v})
+	}
+}
+
+func genProfSeries(rt *rapid.T) pSeries {
+	s := pSeries{Type: pick(rt, profTypes, "type"), PeriodType: pick(rt, periodTypes, "ptype"), PeriodUnit: pick(rt, periodUnits, "punit"), Service: pick(rt, services, "svc")}
+	k := between(rt, 1, 3, "nsamples")
+	off := between(rt, 0, len(sampleTypes)-1, "sampleOff")
+	for j := 0; j < k; j++ {
+		s.Samples = append(s.Samples, sampleTypes[(off+j*3)%len(sampleTypes)])
+	}
+	for _, tn := range profTagNames {
+		if chance(rt, 50, "hasTag") {
+			s.Tags = append(s.Tags, [2]string{tn, pick(rt, profTagVoc[tn], "tagVal")})
+		}
+	}
+	return s
+}
+
 func genProfSel(rt *rapid.T) profSelCase {
 	c := profSelCase{Tick: chance(rt, 25, "tick")}
 	n := between(rt, 2, 9, "nseries")
 	seen := map[string]bool{}
 	fps := map[uint64]bool{}
-	for i := 0; i < n; i++ {
-		s := pSeries{Type: pick(rt, profTypes, "type"), PeriodType: pick(rt, periodTypes, "ptype"), PeriodUnit: pick(rt, periodUnits, "punit"), Service: pick(rt, services, "svc")}
-		k := between(rt, 1, 3, "nsamples")
-		off := between(rt, 0, len(sampleTypes)-1, "sampleOff")
-		for j := 0; j < k; j++ {
-			s.Samples = append(s.Samples, sampleTypes[(off+j*2)%len(sampleTypes)])
-		}
-		for _, tn := range profTagNames {
-			if chance(rt, 50, "hasTag") {
-				s.Tags = append(s.Tags, [2]string{tn, pick(rt, profTagVoc[tn], "tagVal")})
-			}
-		}
+	mutated := map[string]bool{}
+	add := func(s pSeries) {
 		key := fmt.Sprint(s.typeID(), s.Samples, s.Service, s.Tags)
 		if seen[key] {
-			continue
+			return
 		}
 		seen[key] = true
 		fp := rapid.Uint64().Draw(rt, "fp")
@@ -126,53 +202,110 @@ func genProfSel(rt *rapid.T) profSelCase {
 		}
 		fps[fp] = true
 		s.Fp = fp
-		if chance(rt, 8, "otherDay") {
+		if len(c.Series) > 0 && chance(rt, 6, "otherDay") {
 			s.DayOff = []int{-3, 3}[between(rt, 0, 1, "dayDir")]
 		}
 		c.Series = append(c.Series, s)
 	}
+	// series 0 is the focus; most others are copies of it (or of an earlier copy) in which one field
+	// is replaced by a pattern neighbour of its value
+	add(genProfSeries(rt))
+	for i := 1; i < n; i++ {
+		switch k := between(rt, 0, 99, "seriesKind"); {
+		case k < 70:
+			parent := &c.Series[0]
+			if k >= 58 {
+				parent = &c.Series[between(rt, 0, len(c.Series)-1, "parent")]
+			}
+			m := parent.clone()
+			m.DayOff = 0
+			f := pick(rt, profFields, "mutField")
+			cur, ok := m.field(f)
+			if !ok {
+				cur = pick(rt, profTagVoc[f], "newTag")
+				m.setField(f, cur)
+				if chance(rt, 50, "plainNewTag") {
+					mutated[f] = true
+					add(m)
+					continue
+				}
+			}
+			m.setField(f, pick(rt, neighbours(cur), "neighbour"))
+			mutated[f] = true
+			add(m)
+		default:
+			add(genProfSeries(rt))
+		}
+	}
 	max := 4
-	if chance(rt, 2, "manyMatchers") {
+	if chance(rt, 3, "manyMatchers") {
 		max = 11
 	}
 	nm := between(rt, 1, max, "nmatchers")
-	focus := &c.Series[between(rt, 0, len(c.Series)-1, "focus")]
-	fl := focus.labelSets()[between(rt, 0, len(focus.Samples)-1, "focusElem")]
+	many := max > 8
+	if many {
+		nm = between(rt, 9, max, "manyMatchers") // wider than the UInt8 HAVING bit mask used to be
+	}
+	focus := &c.Series[0]
+	fl := focus.labelSets()[0]
+	var fn []string
+	for n := range fl {
+		fn = append(fn, n)
+	}
+	sort.Strings(fn)
+	var mutNames []string
+	for _, f := range profFields {
+		if mutated[f] {
+			mutNames = append(mutNames, f)
+			if typeIDSet[f] || sampleLevelSet[f] {
+				mutNames = append(mutNames, "__profile_type__")
+			}
+		}
+	}
 	names := append(append([]string{}, pseudoLabels...), profTagNames...)
 	for i := 0; i < nm; i++ {
 		var name, val string
 		positive := true
-		switch k := between(rt, 0, 99, "mSource"); {
-		case k < 70:
-			// a label of the focus series (sorted names: deterministic)
-			var fn []string
-			for n := range fl {
-				fn = append(fn, n)
-			}
-			sort.Strings(fn)
-			name = pick(rt, fn, "mName")
-			val = fl[name]
+		// the label: prefer one on which the database holds near-collisions
+		switch k := between(rt, 0, 99, "mName"); {
+		case k < 55 && len(mutNames) > 0:
+			name = pick(rt, mutNames, "mutName")
 		case k < 90:
-			o := &c.Series[between(rt, 0, len(c.Series)-1, "mSeries")]
-			ol := o.labelSets()[between(rt, 0, len(o.Samples)-1, "mElem")]
-			name = pick(rt, names, "mName")
-			v, ok := ol[name]
+			name = pick(rt, fn, "focusName")
+		default:
+			name = pick(rt, append(names, "missing"), "anyName")
+		}
+		if many && len(focus.Tags) > 0 && i < 10 {
+			name = pick(rt, focus.Tags, "manyTag")[0] // only tag matchers enter the bit mask
+		}
+		// the value: the focus series' own, another stored series', or a pool value
+		switch k := between(rt, 0, 99, "mSource"); {
+		case k < 62:
+			v, ok := fl[name]
 			if !ok {
-				v = pick(rt, profTagVoc[name], "mVal")
+				v = pick(rt, []string{"cpu", "prod", "eu", "a.b"}, "mVal")
+				positive = chance(rt, 50, "positive")
 			}
 			val = v
-			positive = fl[name] == val || chance(rt, 30, "positive")
+		case k < 95:
+			o := &c.Series[between(rt, 0, len(c.Series)-1, "mSeries")]
+			ol := o.labelSets()[between(rt, 0, len(o.Samples)-1, "mElem")]
+			v, ok := ol[name]
+			if !ok {
+				v = pick(rt, []string{"cpu", "prod", "eu", "a.b"}, "mVal")
+			}
+			val = v
+			positive = fl[name] == val || chance(rt, 40, "positive")
 		default:
-			name = pick(rt, append(names, "missing"), "mName")
-			val = pick(rt, []string{"cpu", "count", "web", "prod", "eu", "a.b", "process_cpu:cpu:nanoseconds:cpu:nanoseconds"}, "mVal")
+			val = pick(rt, []string{"cpu", "count", "web", "prod", "eu", "a.b", "process_cpu:cpu:nanoseconds:cpu:nanoseconds", "%", "_", ".*"}, "mVal")
 			positive = chance(rt, 50, "positive")
 		}
 		q := regexpQuote(val)
-		shape := between(rt, 0, 9, "mShape")
+		shape := between(rt, 0, 11, "mShape")
 		if positive && chance(rt, 95, "keepPositive") {
-			shape = []int{0, 1, 2, 4, 5, 6, 0, 4, 5, 6}[shape]
+			shape = []int{0, 1, 2, 4, 5, 6, 9, 0, 1, 4, 9, 0}[shape]
 		} else {
-			shape = []int{3, 7, 8, 3, 7, 8, 3, 7, 8, 3}[shape]
+			shape = []int{3, 7, 8, 10, 3, 7, 8, 10, 3, 7, 3, 3}[shape]
 		}
 		var m mMatcher
 		switch shape {
@@ -192,8 +325,12 @@ func genProfSel(rt *rapid.T) profSelCase {
 			}
 		case 7:
 			m = mMatcher{name, "!~", q}
-		default:
+		case 8:
 			m = mMatcher{name, "!~", q + ".+"}
+		case 9:
+			m = mMatcher{name, "=~", val} // the value's own metacharacters taken as a pattern
+		default:
+			m = mMatcher{name, "!~", val}
 		}
 		c.Ms = append(c.Ms, m)
 	}
@@ -329,10 +466,6 @@ func predProfSel(c profSelCase, o *evid.Obs) error {
 			unanch[i] = regexp.MustCompile(m.Val)
 		}
 	}
-	if kv > 8 && !o.Witness {
-		o.Known(knownBitmask)
-		return nil
-	}
 	text := c.selectorText()
 	script, err := profparser.Parse(text)
 	if err != nil {
@@ -373,6 +506,10 @@ func predProfSel(c profSelCase, o *evid.Obs) error {
 		got[fp]++
 	}
 	nsel, nrej, ndc := 0, 0, 0
+	onTypeID, colonDC := false, false
+	for _, m := range c.Ms {
+		onTypeID = onTypeID || typeIDSet[m.Name]
+	}
 	var errs []string
 	for i := range c.Series {
 		s := &c.Series[i]
@@ -381,6 +518,10 @@ func predProfSel(c profSelCase, o *evid.Obs) error {
 			if alt != v {
 				v = vDontCare
 			}
+		}
+		if s.colonInTypeID() && onTypeID && v != vDontCare && s.DayOff == 0 {
+			v = vDontCare
+			colonDC = true
 		}
 		n := got[s.Fp]
 		delete(got, s.Fp)
@@ -415,9 +556,27 @@ func predProfSel(c profSelCase, o *evid.Obs) error {
 			o.Tag("on-tag")
 		}
 	}
+	if kv > 8 {
+		o.Tag("tag-matchers>8") // HAVING bit mask wider than UInt8 (C07's fix 21d4cf3)
+	}
 	if ndc > 0 {
 		o.Tag("has-dontcare-series")
 	}
+	if colonDC {
+		o.Tag("colon-in-type-id-dontcare")
+	}
+	tagCollisions(o, c.Ms, func(name string, f func(v string)) {
+		for i := range c.Series {
+			if c.Series[i].DayOff != 0 {
+				continue
+			}
+			for _, ls := range c.Series[i].labelSets() {
+				if v, ok := ls[name]; ok {
+					f(v)
+				}
+			}
+		}
+	})
 	switch {
 	case nsel == 0:
 		o.Tag("selects-none")
